@@ -1,9 +1,18 @@
 // Driver for C11: runs operation sequences against the real built-in session cache of both
 // stacks and writes `case => observed` lines for the Lean oracle (model + spec).
+//
+// Ops: `P.<key>.<obj|nil>`, `G.<key>`, and `N.<obj>.<buf>.<buf>…` which declares a session object
+// together with the backing array of each of its reference fields (equal names = shared storage,
+// `n` = nil; an undeclared object owns storage of its own). The driver assembles such objects by
+// reflection and, after every operation, re-reads every field of every object (heap.go): the
+// observation lists every change as `harm=<op>:<obj>.<field>:<n|z|x>`. Phase conn records the
+// same for real handshake histories (storage identities observed by pointer, open connections
+// as `H.<1000+i>…` objects in use).
 package main
 
 import (
 	"fmt"
+	"reflect"
 	"sort"
 	"strconv"
 	"strings"
@@ -14,91 +23,65 @@ import (
 	"verifharness/internal/resume"
 )
 
-// cache abstracts over the two stacks (identical code, different types).
+// cache abstracts over the two stacks (identical code, different types). Sessions travel as
+// `any` (a *SessionState of the stack); their fields are read and assembled by reflection
+// (heap.go), so nothing here names a field.
 type cache interface {
-	put(key string, obj int, isNil bool)
-	get(key string) (obj int, isNil, ok, wiped bool)
+	put(key string, s any) // nil deletes
+	get(key string) (s any, ok bool)
 	lens() (int, int)
-	wipedObjs() []int
+	newSession(tag int) any
+	wiped(s any) bool
+	sessionType() reflect.Type
 }
 
-type tlcpCache struct {
-	c    tlcp.SessionCache
-	objs map[int]*tlcp.SessionState
-}
+type tlcpCache struct{ c tlcp.SessionCache }
 
-func (t *tlcpCache) put(key string, obj int, isNil bool) {
-	if isNil {
+func (t *tlcpCache) put(key string, s any) {
+	if s == nil {
 		t.c.Put(key, nil)
 		return
 	}
-	s, ok := t.objs[obj]
-	if !ok {
-		s = tlcp.VerifNewSessionState(obj)
-		t.objs[obj] = s
-	}
-	t.c.Put(key, s)
+	t.c.Put(key, s.(*tlcp.SessionState))
 }
-func (t *tlcpCache) get(key string) (int, bool, bool, bool) {
+func (t *tlcpCache) get(key string) (any, bool) {
 	s, ok := t.c.Get(key)
 	if s == nil {
-		return 0, true, ok, false
+		return nil, ok
 	}
-	return tlcp.VerifSessionTag(s), false, ok, tlcp.VerifSessionWiped(s)
+	return s, ok
 }
-func (t *tlcpCache) lens() (int, int) { return tlcp.VerifLRULen(t.c) }
-func (t *tlcpCache) wipedObjs() []int {
-	var out []int
-	for id, s := range t.objs {
-		if tlcp.VerifSessionWiped(s) {
-			out = append(out, id)
-		}
-	}
-	sort.Ints(out)
-	return out
-}
+func (t *tlcpCache) lens() (int, int)          { return tlcp.VerifLRULen(t.c) }
+func (t *tlcpCache) newSession(tag int) any    { return tlcp.VerifNewSessionState(tag) }
+func (t *tlcpCache) wiped(s any) bool          { return tlcp.VerifSessionWiped(s.(*tlcp.SessionState)) }
+func (t *tlcpCache) sessionType() reflect.Type { return reflect.TypeOf(tlcp.SessionState{}) }
 
-type dtlcpCache struct {
-	c    dtlcp.SessionCache
-	objs map[int]*dtlcp.SessionState
-}
+type dtlcpCache struct{ c dtlcp.SessionCache }
 
-func (t *dtlcpCache) put(key string, obj int, isNil bool) {
-	if isNil {
+func (t *dtlcpCache) put(key string, s any) {
+	if s == nil {
 		t.c.Put(key, nil)
 		return
 	}
-	s, ok := t.objs[obj]
-	if !ok {
-		s = dtlcp.VerifNewSessionState(obj)
-		t.objs[obj] = s
-	}
-	t.c.Put(key, s)
+	t.c.Put(key, s.(*dtlcp.SessionState))
 }
-func (t *dtlcpCache) get(key string) (int, bool, bool, bool) {
+func (t *dtlcpCache) get(key string) (any, bool) {
 	s, ok := t.c.Get(key)
 	if s == nil {
-		return 0, true, ok, false
+		return nil, ok
 	}
-	return dtlcp.VerifSessionTag(s), false, ok, dtlcp.VerifSessionWiped(s)
+	return s, ok
 }
-func (t *dtlcpCache) lens() (int, int) { return dtlcp.VerifLRULen(t.c) }
-func (t *dtlcpCache) wipedObjs() []int {
-	var out []int
-	for id, s := range t.objs {
-		if dtlcp.VerifSessionWiped(s) {
-			out = append(out, id)
-		}
-	}
-	sort.Ints(out)
-	return out
-}
+func (t *dtlcpCache) lens() (int, int)          { return dtlcp.VerifLRULen(t.c) }
+func (t *dtlcpCache) newSession(tag int) any    { return dtlcp.VerifNewSessionState(tag) }
+func (t *dtlcpCache) wiped(s any) bool          { return dtlcp.VerifSessionWiped(s.(*dtlcp.SessionState)) }
+func (t *dtlcpCache) sessionType() reflect.Type { return reflect.TypeOf(dtlcp.SessionState{}) }
 
 func newCache(stack string, capacity int) cache {
 	if stack == "dtlcp" {
-		return &dtlcpCache{c: dtlcp.NewLRUSessionCache(capacity), objs: map[int]*dtlcp.SessionState{}}
+		return &dtlcpCache{c: dtlcp.NewLRUSessionCache(capacity)}
 	}
-	return &tlcpCache{c: tlcp.NewLRUSessionCache(capacity), objs: map[int]*tlcp.SessionState{}}
+	return &tlcpCache{c: tlcp.NewLRUSessionCache(capacity)}
 }
 
 func b01(b bool) string {
@@ -115,6 +98,34 @@ func unkey(k string) string {
 	return k
 }
 
+// holderBase is the identity of the first connection state (connection i is object holderBase+i).
+const holderBase = 1000
+
+// observeConn attaches the heap observers to a history runner: every session pointer the client's
+// cache sees is declared with its storage (`N.<obj>.<buf>…`, by pointer identity) and tracked,
+// every completed connection is declared as a holder (`H.<1000+i>.…`) and tracked, and after
+// every cache operation all tracked objects are compared with their registration-time content.
+func observeConn[S comparable](r *resume.Runner[S], sessionType reflect.Type) *tracker {
+	tr := newTracker(sessionType)
+	r.Client.OnNew = func(id int, s S) string {
+		tr.register(id, any(s))
+		return tr.decl("N", id, any(s))
+	}
+	r.Client.AfterOp = func(idx int) { tr.scan(idx) }
+	r.OnHS = func(i int, h resume.HS) {
+		if h.CErr != nil || h.CPeer == nil {
+			return
+		}
+		cs := h.CPeer()
+		if len(cs) == 0 {
+			return
+		}
+		r.Client.Note(tr.declHolder(holderBase+i, cs))
+		tr.registerHolder(holderBase+i, h.CPeer)
+	}
+	return tr
+}
+
 // executeConn runs a history of real, honest client handshakes (phase conn) through a client
 // cache of the given capacity wrapped in a recording cache, and returns the recorded
 // Put/Get trace in the op syntax of this check together with each handshake's outcome.
@@ -124,21 +135,23 @@ func executeConn(desc, hist string) string {
 	var obs string
 	if p := hx.Guard(func() {
 		h := resume.ParseHist(hist)
-		render := func(ops, outs, state, hs string) {
-			obs = fmt.Sprintf("ops=%s outs=%s %s hs=%s", ops, outs, state, hs)
+		render := func(ops, outs, state, hs string, tr *tracker) {
+			obs = fmt.Sprintf("ops=%s outs=%s %s hs=%s fields=%s harm=%s", ops, outs, state, hs, tr.lay.refNames(), tr.harm())
 		}
 		if stack == "dtlcp" {
 			r := resume.NewRunner(resume.DTLCP, capacity, 4, 1)
 			r.NoCtl = true
+			tr := observeConn(r, reflect.TypeOf(dtlcp.SessionState{}))
 			r.Run(h)
 			ops, outs := r.Trace()
-			render(ops, outs, r.CacheState(), r.HSResults())
+			render(ops, outs, r.CacheState(), r.HSResults(), tr)
 		} else {
 			r := resume.NewRunner(resume.TLCP, capacity, 4, 1)
 			r.NoCtl = true
+			tr := observeConn(r, reflect.TypeOf(tlcp.SessionState{}))
 			r.Run(h)
 			ops, outs := r.Trace()
-			render(ops, outs, r.CacheState(), r.HSResults())
+			render(ops, outs, r.CacheState(), r.HSResults(), tr)
 		}
 	}); p != "" {
 		return "panic=" + p
@@ -168,6 +181,16 @@ func connCases(o hx.Opts, emit func(string)) {
 		// F40: the cached session is evicted (and wiped) while the handshake that loaded it is in flight
 		emit(fmt.Sprintf("stack=%s cap=2 hist=%s", st, strings.Join([]string{honest("-", 0), evicting(0, 2), honest("-", 0)}, ",")))
 		emit(fmt.Sprintf("stack=%s cap=4 hist=%s", st, strings.Join([]string{honest("-", 0), evicting(0, 4), honest("-", 0)}, ",")))
+		// two destinations alternating over ten connections, every connection staying open: whatever
+		// the cache evicts on the way, sessions still cached and connections still open keep their
+		// certificates, and the last reconnect resumes
+		for cp := 1; cp <= 4; cp++ {
+			var hs []string
+			for _, d := range []int{0, 0, 1, 1, 0, 1, 1, 0, 0, 0} {
+				hs = append(hs, honest("-", d))
+			}
+			emit(fmt.Sprintf("stack=%s cap=%d hist=%s", st, cp, strings.Join(hs, ",")))
+		}
 	}
 	r := hx.NewRand(o.Seed + 77)
 	n := 1500 * o.Scale
@@ -214,31 +237,64 @@ func execute(desc string) string {
 	capacity := hx.KVInt(desc, "cap")
 	opsStr, _ := hx.KV(desc, "ops")
 	c := newCache(stack, capacity)
+	tr := newTracker(c.sessionType())
+	objs := map[int]any{}
+	// object obj with the storage named by bufs (one backing-array name per reference field,
+	// "n" = nil); an object the case did not declare owns storage of its own (named 100000+obj)
+	ensure := func(obj int, bufs []string) any {
+		if s, ok := objs[obj]; ok {
+			return s
+		}
+		if bufs == nil {
+			for range tr.lay.refs {
+				bufs = append(bufs, strconv.Itoa(implicitBuf+obj))
+			}
+		}
+		s := c.newSession(obj)
+		tr.assemble(s, bufs)
+		tr.register(obj, s)
+		objs[obj] = s
+		return s
+	}
 	var outs []string
 	if opsStr != "-" && opsStr != "" {
-		for _, op := range strings.Split(opsStr, ",") {
+		for i, op := range strings.Split(opsStr, ",") {
 			parts := strings.Split(op, ".")
 			switch parts[0] {
+			case "N":
+				id, _ := strconv.Atoi(parts[1])
+				ensure(id, parts[2:])
 			case "P":
 				if parts[2] == "nil" {
-					c.put(unkey(parts[1]), 0, true)
+					c.put(unkey(parts[1]), nil)
 				} else {
 					id, _ := strconv.Atoi(parts[2])
-					c.put(unkey(parts[1]), id, false)
+					c.put(unkey(parts[1]), ensure(id, nil))
 				}
 				outs = append(outs, "U")
 			case "G":
-				obj, isNil, ok, wiped := c.get(unkey(parts[1]))
-				o := "nil"
-				if !isNil {
-					o = strconv.Itoa(obj)
+				s, ok := c.get(unkey(parts[1]))
+				o, wiped := "nil", false
+				if s != nil {
+					o = "?"
+					if to := tr.byPtr[reflect.ValueOf(s).UnsafePointer()]; to != nil {
+						o = strconv.Itoa(to.id)
+					}
+					wiped = c.wiped(s)
 				}
 				outs = append(outs, fmt.Sprintf("G.%s.%s.%s", o, b01(ok), b01(wiped)))
 			}
+			tr.scan(i)
 		}
 	}
 	q, m := c.lens()
-	w := c.wipedObjs()
+	var w []int
+	for id, s := range objs {
+		if c.wiped(s) {
+			w = append(w, id)
+		}
+	}
+	sort.Ints(w)
 	ws := "-"
 	if len(w) > 0 {
 		ss := make([]string, len(w))
@@ -251,38 +307,76 @@ func execute(desc string) string {
 	if len(outs) > 0 {
 		os = strings.Join(outs, ",")
 	}
-	return fmt.Sprintf("outs=%s len=%d/%d wiped=%s", os, q, m, ws)
+	return fmt.Sprintf("outs=%s len=%d/%d wiped=%s fields=%s harm=%s", os, q, m, ws, tr.lay.refNames(), tr.harm())
 }
+
+// implicitBuf + obj names the private storage of an object the case does not declare.
+const implicitBuf = 100000
 
 var keys = []string{"a", "b", "c", "_"}
 
-// alphabet of abstract ops for exhaustive enumeration: value kinds F(resh) A(lias of 1) N(il)
-func alphabet() []string {
+// alphabet of abstract ops for exhaustive enumeration. Value kinds: F(resh object), A(lias of
+// object 1), N(il) and — when sharing is set, for keys a and b — C (a fresh object shaped like a
+// clone() of object 1: it shares the storage of every reference field except the master secret)
+// and S (a fresh object shaped like a struct copy of object 1: it shares all storage).
+func alphabet(sharing bool) []string {
 	var a []string
 	for _, k := range keys {
 		for _, v := range []string{"F", "A", "N"} {
 			a = append(a, "P."+k+"."+v)
+		}
+		if sharing && (k == "a" || k == "b") {
+			a = append(a, "P."+k+".C", "P."+k+".S")
 		}
 		a = append(a, "G."+k)
 	}
 	return a
 }
 
-// concretise replaces F by fresh object ids (2,3,..) and A by object 1
-func concretise(seq []string) string {
+// refFields lists the reference fields of the stack's SessionState (by reflection).
+func refFields(stack string) []string {
+	t := reflect.TypeOf(tlcp.SessionState{})
+	if stack == "dtlcp" {
+		t = reflect.TypeOf(dtlcp.SessionState{})
+	}
+	l := layoutOf(t)
+	var out []string
+	for _, fi := range l.refs {
+		out = append(out, l.fields[fi].name)
+	}
+	return out
+}
+
+// the documented name of the field an eviction overwrites
+const secretField = "masterSecret"
+
+// concretise replaces F by fresh object ids (2,3,..), A by object 1, C / S by a declared fresh
+// object sharing storage with object 1.
+func concretise(seq []string, fields []string) string {
 	next := 2
-	out := make([]string, len(seq))
-	for i, op := range seq {
+	var out []string
+	for _, op := range seq {
 		switch {
 		case strings.HasSuffix(op, ".F"):
-			out[i] = op[:len(op)-1] + strconv.Itoa(next)
+			out = append(out, op[:len(op)-1]+strconv.Itoa(next))
 			next++
 		case strings.HasSuffix(op, ".A"):
-			out[i] = op[:len(op)-1] + "1"
+			out = append(out, op[:len(op)-1]+"1")
 		case strings.HasSuffix(op, ".N"):
-			out[i] = op[:len(op)-1] + "nil"
+			out = append(out, op[:len(op)-1]+"nil")
+		case strings.HasSuffix(op, ".C"), strings.HasSuffix(op, ".S"):
+			decl := "N." + strconv.Itoa(next)
+			for _, f := range fields {
+				if f == secretField && strings.HasSuffix(op, ".C") {
+					decl += "." + strconv.Itoa(implicitBuf+next)
+				} else {
+					decl += "." + strconv.Itoa(implicitBuf+1)
+				}
+			}
+			out = append(out, decl, op[:len(op)-1]+strconv.Itoa(next))
+			next++
 		default:
-			out[i] = op
+			out = append(out, op)
 		}
 	}
 	return strings.Join(out, ",")
@@ -321,31 +415,44 @@ func main() {
 		emit("stack=" + st + " cap=1 ops=P.sid.7,P.dst.7,G.dst")         // F5 pattern (aliasing)
 		emit("stack=" + st + " cap=0 ops=P.a.2,G.a,G._")                 // default capacity
 		emit("stack=" + st + " cap=-3 ops=P.a.2,P.a.nil,G.a,G._")
+		// the heap one real handshake creates (session under the session-id key, its clone() under the
+		// destination key, sharing identifier and certificates) at capacities 1 and 2, then one more store
+		fs := refFields(st)
+		emit("stack=" + st + " cap=1 ops=" + concretise([]string{"P.a.A", "P.b.C", "G.b", "G.a"}, fs))
+		emit("stack=" + st + " cap=2 ops=" + concretise([]string{"P.a.A", "P.b.C", "P.c.F", "G.b", "G.a"}, fs))
+		emit("stack=" + st + " cap=1 ops=" + concretise([]string{"P.a.A", "P.b.S", "G.b"}, fs))
 	}
 
-	// 2. exhaustive enumeration to a depth
-	depth := 3
+	// 2. exhaustive enumeration to a depth (thorough: depth 5 without the sharing kinds, depth 4 with them)
+	type enum struct {
+		depth   int
+		sharing bool
+	}
+	enums := []enum{{3, true}}
 	caps := []int{1, 2, 3}
 	if o.Tier == "thorough" {
-		depth = 5
+		enums = []enum{{5, false}, {4, true}}
 		caps = []int{1, 2, 3, 4}
 	}
-	al := alphabet()
-	for _, st := range []string{"tlcp", "dtlcp"} {
-		for _, cp := range caps {
-			var rec func(seq []string)
-			rec = func(seq []string) {
-				if len(seq) > 0 {
-					emit(fmt.Sprintf("stack=%s cap=%d ops=%s", st, cp, concretise(seq)))
+	for _, en := range enums {
+		al := alphabet(en.sharing)
+		for _, st := range []string{"tlcp", "dtlcp"} {
+			fs := refFields(st)
+			for _, cp := range caps {
+				var rec func(seq []string)
+				rec = func(seq []string) {
+					if len(seq) > 0 {
+						emit(fmt.Sprintf("stack=%s cap=%d ops=%s", st, cp, concretise(seq, fs)))
+					}
+					if len(seq) == en.depth {
+						return
+					}
+					for _, a := range al {
+						rec(append(seq, a))
+					}
 				}
-				if len(seq) == depth {
-					return
-				}
-				for _, a := range al {
-					rec(append(seq, a))
-				}
+				rec(nil)
 			}
-			rec(nil)
 		}
 	}
 
@@ -365,9 +472,12 @@ func main() {
 			nk = 50 + r.Intn(100)
 		}
 		next := 2
-		alias := r.Chance(30) // some sequences re-use objects (aliasing), most do not
-		ops := make([]string, ln)
-		for j := range ops {
+		alias := r.Chance(30)   // some sequences re-use objects (aliasing), most do not
+		sharing := r.Chance(40) // some sequences have objects that share storage field by field
+		fs := refFields(st)
+		bufOf := map[int][]string{} // the storage of the objects introduced so far
+		var ops []string
+		for j := 0; j < ln; j++ {
 			k := "k" + strconv.Itoa(r.Intn(nk))
 			if r.Chance(5) {
 				k = "_"
@@ -379,12 +489,32 @@ func main() {
 					id = 2 + r.Intn(next-2)
 				} else {
 					next++
+					bufs := make([]string, len(fs))
+					for f := range fs {
+						bufs[f] = strconv.Itoa(implicitBuf + id)
+					}
+					if sharing && id > 2 && r.Chance(40) {
+						// share some fields with an earlier object: mostly everything but the secret
+						// (clone-shaped), sometimes any subset, sometimes a nil field
+						src := bufOf[2+r.Intn(id-2)]
+						mode := r.Intn(10)
+						for f := range fs {
+							switch {
+							case mode < 6 && fs[f] != secretField, mode >= 6 && mode < 9 && r.Bool():
+								bufs[f] = src[f]
+							case mode == 9 && r.Chance(30):
+								bufs[f] = "n"
+							}
+						}
+						ops = append(ops, "N."+strconv.Itoa(id)+"."+strings.Join(bufs, "."))
+					}
+					bufOf[id] = bufs
 				}
-				ops[j] = "P." + k + "." + strconv.Itoa(id)
+				ops = append(ops, "P."+k+"."+strconv.Itoa(id))
 			case x < 55:
-				ops[j] = "P." + k + ".nil"
+				ops = append(ops, "P."+k+".nil")
 			default:
-				ops[j] = "G." + k
+				ops = append(ops, "G."+k)
 			}
 		}
 		emit(fmt.Sprintf("stack=%s cap=%d ops=%s", st, cp, strings.Join(ops, ",")))
